@@ -110,6 +110,10 @@ Record Inv (t : tower) : Prop := {
   inv_fk_trk : forall k, In k (db_trks t) -> exists a, In a (db_apps t) /\ app_uuid a = trk_uuid k
 }.
 
+(* every user the gatekeeper knows has its row (memory = table users) *)
+Lemma inv_user_rows t : Inv t -> forall u, user_row_ok t u.
+Proof. intros HI u H. unfold amem in *. rewrite <- (inv_sync t HI). exact H. Qed.
+
 Lemma inv_frame t t' : same_tables t t' -> Inv t -> Inv t'.
 Proof.
   intros [Hc [Hg [Hu [Ha Hk]]]] [I1 I2 I3 I4 I5 I6 I7].
